@@ -70,6 +70,12 @@ func (in *Interp) invoke(fnv Value, args []Value, c *ssa.CallCommon, fr *Frame) 
 	if h, ok := in.hooks[name]; ok {
 		return h(in, args)
 	}
+	if in.summaries["Piecewise"] && name == repoMod+"/util/fn.Piecewise" {
+		// opaque table lookup: an uninterpreted function of the argument per table (stated abstraction)
+		ys := args[2].(*IfaceV).val.(*PtrV)
+		in.notes = appendNote(in.notes, "fn.Piecewise summarised as an uninterpreted function per table (the obligations of this harness do not depend on table values)")
+		return []Value{in.ackermannNamed(fmt.Sprintf("pw%d", ys.obj.id), []*Term{args[0].(*Term)}, false), &IfaceV{}}
+	}
 	if in.summaries["FindRoot"] && name == repoMod+"/util/fn.FindRoot" {
 		return in.findRootSummary(args, c, fr)
 	}
@@ -795,7 +801,9 @@ func (in *Interp) findRootSummary(args []Value, c *ssa.CallCommon, fr *Frame) []
 	zero := in.realConst(0)
 	fmin, fmax := call(minX), call(maxX)
 	in.implicitFail("FindRoot-invalid-range", ts.And(ts.FCmp("fle", fmin, zero), ts.FCmp("fle", zero, fmax)))
-	x := ts.Fresh("findroot_x", in.floatSort())
+	// the same bracket on the same function (fingerprinted by its values at the ends) yields the
+	// same root: FindRoot is deterministic
+	x := ts.Var(fmt.Sprintf("findroot_x!%d_%d_%d_%d", minX.id, maxX.id, fmin.id, fmax.id), in.floatSort())
 	in.assume(ts.And(ts.FCmp("fle", minX, x), ts.FCmp("fle", x, maxX)))
 	d := call(x)
 	in.assume(ts.FCmp("flt", in.fabs(d), tol))
